@@ -7,7 +7,6 @@ import (
 	"go/types"
 	"regexp/syntax"
 	"sort"
-	"strconv"
 	"strings"
 
 	"golang.org/x/tools/go/packages"
@@ -130,13 +129,29 @@ func formatLiterals(format string) []string {
 	return out
 }
 
-// stringLitsIn lists the string literals under n in source order.
+// stringLitsIn lists, in source order, the constant strings used under n:
+// literals and named constants (outermost constant expressions only, so that
+// "a"+"b" counts once as "ab").
 func stringLitsIn(info *types.Info, n ast.Node) []string {
 	var out []string
 	ast.Inspect(n, func(m ast.Node) bool {
-		if bl, ok := m.(*ast.BasicLit); ok && bl.Kind == token.STRING {
-			if s, err := strconv.Unquote(bl.Value); err == nil {
-				out = append(out, s)
+		e, ok := m.(ast.Expr)
+		if !ok {
+			return true
+		}
+		if tv, ok := info.Types[e]; ok && tv.Value != nil {
+			if b, isBasic := tv.Type.Underlying().(*types.Basic); isBasic && b.Info()&types.IsString != 0 {
+				out = append(out, stringLit(info, e))
+				return false
+			}
+			return false
+		}
+		// a constant identifier used as an operand
+		if id, ok := e.(*ast.Ident); ok {
+			if k, ok := info.Uses[id].(*types.Const); ok {
+				if b, isBasic := k.Type().Underlying().(*types.Basic); isBasic && b.Info()&types.IsString != 0 {
+					out = append(out, constString(k))
+				}
 			}
 		}
 		return true
